@@ -14,7 +14,8 @@ PROPERTY_ID = 'C05'
 LEVEL = 'exploration'
 LINES_BASE, LINES_PER_BYTE = 20000, 20000
 NODES_BASE, NODES_PER_BYTE = 1000, 64
-RULE = ('deep_valid also holds chains of 4..40 nested variants whose signatures carry two or three complete types (forbidden, '
+RULE = ('repeat also holds 800 KB dictionaries with one repeated key (30 s against 0.2 s); deep_valid also holds long body '
+        'signatures smuggled in through a SIGNATURE field of type STRING / OBJECT_PATH, and chains of 4..40 nested variants whose signatures carry two or three complete types (forbidden, '
         'tolerated by lenient decoders): work must not double per level. repeat: messages under 300 bytes carrying 24 / 40 / 80 repetitions of a legal name unit plus one illegal character in a '
         'header field or body value must be answered within 20 s (the only wall-clock oracle; this tree needs < 1 ms). '
         'copy_work: valid messages with 300 / 3000 small containers decoded from a bytes subclass that counts the bytes '
@@ -522,16 +523,39 @@ def enum_repeat(tier):
         for place in REPEAT_PLACES:
             for k in (24, 40, 80):
                 yield {'shape': shape, 'place': place, 'k': k}
+    # a big dictionary in which ONE key occurs twice (the specification calls that corrupt-but-tolerable; no encoder writes
+    # it): whatever is done about the repeat must not cost a pass over the dictionary per entry
+    for place in ('a{uu}', 'a{su}'):
+        for where in ('first', 'last'):
+            yield {'shape': 'dup-key', 'place': place, 'k': 100000, 'where': where}
 
 
 def run_repeat(case):
     import signal
     from txdbus import message as MSG
-    text = REPEAT_SHAPES[case['shape']](case['k'])[:250]
     fields = {1: '/o', 2: 'a.b', 3: 'S'}
     sig, trees = '', []
     place = case['place']
-    if place == 'path-field':
+    limit = 20.0
+    raw = None
+    if case['shape'] == 'dup-key':
+        n = case['k']
+        limit = 30.0        # this tree: 0.2 s for the 800 KB message; a pass per entry: minutes
+        if place == 'a{uu}':
+            ent = [struct.pack('<II', i, i) for i in range(n)]
+            ent[0 if case['where'] == 'first' else n - 1] = struct.pack('<II', n // 2, 9)
+        else:
+            ent = [struct.pack('<I', 5) + (b'%05d' % (i % 100000)) + b'\0\0\0' + struct.pack('<I', i) for i in range(n)]
+            ent[0 if case['where'] == 'first' else n - 1] = struct.pack('<I', 5) + (b'%05d' % (n // 2)) + b'\0\0\0' + struct.pack('<I', 9)
+        entries = b''.join(ent)
+        body = struct.pack('<I', len(entries)) + b'\0' * 4 + entries
+        raw = R.encode_message(4, 5, fields, extra_fields=[(8, 'g', place)], raw_body=body)
+        text = ''
+    else:
+        text = REPEAT_SHAPES[case['shape']](case['k'])[:250]
+    if raw is not None:
+        pass
+    elif place == 'path-field':
         fields[1] = text
     elif place == 'interface-field':
         fields[2] = text
@@ -547,20 +571,21 @@ def run_repeat(case):
         sig, trees = 'v', [['o', text]]
     else:
         sig, trees = 'g', [('a' * case['k'])[:200] + '!']
-    raw = R.encode_message(4, 5, fields, sig, trees)     # the reference ENCODER does not judge names: hostile on purpose
+    if raw is None:
+        raw = R.encode_message(4, 5, fields, sig, trees)     # the reference ENCODER does not judge names: hostile on purpose
 
     def on_alarm(signum, frame):
         raise _TooSlow()
     old = signal.signal(signal.SIGALRM, on_alarm)
-    signal.setitimer(signal.ITIMER_REAL, 20.0)
+    signal.setitimer(signal.ITIMER_REAL, limit)
     try:
         try:
             MSG.parseMessage(raw, [])
         except _TooSlow:
             # the one place where a clock decides: a %d-byte message that is not answered within 20 s (this tree: well under
             # a millisecond, five orders of magnitude away) - a budget on interpreter lines cannot see time spent inside re
-            return [Disc('repeat.no-answer-within-20s', 'a %d-byte message (%s at %s, %d repetitions) was still being decoded '
-                                                       'after 20 seconds' % (len(raw), case['shape'], place, case['k']))]
+            return [Disc('repeat.no-answer-within-%ds' % limit, 'a %d-byte message (%s at %s, %d repetitions) was still being decoded '
+                                                       'after %d seconds' % (len(raw), case['shape'], place, case['k'], limit))]
         except Exception:
             pass
     finally:
